@@ -168,11 +168,20 @@ PROPS['C05'] = dict(
     modules=['contracts.dtw_c'],
     contracts=[],
     lemmas=[],
-    bounded=_CM,
+    bounded=dict(_CM, **{'path-validity-native-sweep': lambda run: _native_sweep(
+        'paths_native.py',
+        'random small pairs x window/penalty/psi/inner distance x {warping_path, warping_path_fast, best_path on a Python matrix, '
+        'best_path on a C matrix}: contiguous monotone steps, inside the band, psi-relaxed corners, accumulated cost == distance',
+        150, 2000)(run)}),
     level='exploration',
-    claimed=False,
-    reason='not decided: the traceback routines (dtw.best_path, dtw_best_path*) are not yet under contract; a bounded '
-           'chain sweep of the C routines exists and has recorded genuine defects with end-of-series psi (KF-C05-1)',
+    level_text='Bounded stand-in only: the traceback routines are not under contract. Every path route of both engines is swept '
+               'on small inputs against the path definition of the property; the C routines additionally run in sanitizer chains.',
+    level_note='No unbounded claim. Four families of genuine defects are recorded (KF-C05-1..4): psi relaxation, Python penalty, '
+               'dropped inner_dist in warping_path_fast, out-of-band cells of the C matrix.',
+    trusted_base=[],
+    assumptions=['bounded: lengths <= 6 (native), <= 4/5 (chains)'],
+    not_decided=['unbounded contracts for dtw.best_path / dtw_best_path* (termination, step shape, bounds are provable; value part needs C04)'],
+    technique='bounded sweep of the real path routines (stand-in; traceback contracts are not written)',
 )
 
 
